@@ -3,9 +3,11 @@
 extern crate ff_zeroize as ff;
 extern crate pairing_plus as pairing;
 extern crate digest;
+extern crate sha2;
+extern crate sha3;
 use ff::{Field, PrimeField, PrimeFieldRepr, SqrtField};
 use pairing::bls12_381::*;
-use pairing::hash_to_field::{BaseFromRO, FromRO};
+use pairing::hash_to_field::{hash_to_field, BaseFromRO, ExpandMsg, ExpandMsgXmd, ExpandMsgXof, FromRO};
 use pairing::serdes::SerDes;
 use pairing::signum::{Sgn0Result, Signum0};
 use pairing::{CurveAffine, CurveProjective, EncodedPoint, Engine, GroupDecodingError, SubgroupCheck};
@@ -95,6 +97,9 @@ fn main() {
                     "affine_mul" => { let r = p.into_affine().mul(fr_repr(&e.s("k"))); $outp(&r, &mut out); }
                     "in_subgroup" => { tag = format!("{}", p.into_affine().in_subgroup()); }
                     "precomp_256" => { let a = p.into_affine(); let mut pre = vec![$Aff::zero(); 256]; a.precomp_256(&mut pre); let r = a.mul_precomp_256(fr_repr(&e.s("k")), &pre); $outp(&r, &mut out); }
+                    "batch_norm" => { let n: usize = e.s("n").parse().unwrap_or(0); let mut v = Vec::new(); for i in 0..n { v.push(e.$get(&format!("p{}", i))); }
+                                      CurveProjective::batch_normalization(&mut v);
+                                      for q in v.iter() { if !q.is_normalized() { out.push("notnorm".into()); } else if q.is_zero() { out.push("inf".into()); } else { $outp(q, &mut out); } } }
                     "precomp_3" => { let a = p.into_affine(); let mut pre = vec![$Aff::zero(); 3]; a.precomp_3(&mut pre); let r = a.mul_precomp_3(fr_repr(&e.s("k")), &pre); $outp(&r, &mut out); }
                     // wNAF contexts; k0 (optional, comma separated) are scalars used on the SAME context before k (reuse history)
                     "wnaf_sb" => { let mut ctx = pairing::Wnaf::new(); for k0 in e.s("k0").split(',').filter(|x| !x.is_empty()) { let _ = ctx.scalar(fr_repr(k0)).base(p); }
@@ -118,6 +123,49 @@ fn main() {
                 match r { Ok(a) => { tag = "Ok".into(); $outa(&a, &mut out); } Err(er) => { tag = err_kind(&er).into(); } } }}; }
             match kind.as_str() { "g1u" => dec!(G1Uncompressed, out_a1), "g1c" => dec!(G1Compressed, out_a1), "g2u" => dec!(G2Uncompressed, out_a2), "g2c" => dec!(G2Compressed, out_a2),
                                   _ => { println!("{{\"error\":\"unknown kind\"}}"); return; } }
+        }
+        // ---- message expansion and field hashing (a panic is reported as tag "panic")
+        "expand" => {
+            let msg = hex_bytes(&e.s("msg")); let dst = hex_bytes(&e.s("dst")); let len: usize = e.s("len").parse().unwrap();
+            let variant = e.s("variant");
+            std::panic::set_hook(Box::new(|_| {}));
+            let r = std::panic::catch_unwind(|| match variant.as_str() {
+                "xmd256" => ExpandMsgXmd::<sha2::Sha256>::expand_message(&msg, &dst, len),
+                "xmd512" => ExpandMsgXmd::<sha2::Sha512>::expand_message(&msg, &dst, len),
+                "xof128" => ExpandMsgXof::<sha3::Shake128>::expand_message(&msg, &dst, len),
+                _ => ExpandMsgXof::<sha3::Shake256>::expand_message(&msg, &dst, len),
+            });
+            match r { Ok(v) => { tag = bytes_hex(&v); } Err(_) => { tag = "panic".into(); } }
+        }
+        "hash_to_field" => {
+            let msg = hex_bytes(&e.s("msg")); let dst = hex_bytes(&e.s("dst")); let count: usize = e.s("count").parse().unwrap();
+            let frh = |x: &Fr| { let r = x.into_repr(); let mut s = String::from("0x"); for i in (0..4).rev() { s.push_str(&format!("{:016x}", r.0[i])); } s };
+            match (e.s("field").as_str(), e.s("variant").as_str()) {
+                ("fq", "xmd256") => { for x in hash_to_field::<Fq, ExpandMsgXmd<sha2::Sha256>>(&msg, &dst, count) { out.push(fq_hex(&x)); } }
+                ("fq", _) => { for x in hash_to_field::<Fq, ExpandMsgXof<sha3::Shake128>>(&msg, &dst, count) { out.push(fq_hex(&x)); } }
+                ("fr", "xmd256") => { for x in hash_to_field::<Fr, ExpandMsgXmd<sha2::Sha256>>(&msg, &dst, count) { out.push(frh(&x)); } }
+                ("fr", _) => { for x in hash_to_field::<Fr, ExpandMsgXof<sha3::Shake128>>(&msg, &dst, count) { out.push(frh(&x)); } }
+                ("fq2", "xmd256") => { for x in hash_to_field::<Fq2, ExpandMsgXmd<sha2::Sha256>>(&msg, &dst, count) { o2(&x, &mut out); } }
+                _ => { for x in hash_to_field::<Fq2, ExpandMsgXof<sha3::Shake128>>(&msg, &dst, count) { o2(&x, &mut out); } }
+            }
+        }
+        // ---- multi-scalar multiplication: points p0.., scalars k0.. (n of each unless np / nk say otherwise)
+        "msm_g1" | "msm_g2" => {
+            let np: usize = e.s("np").parse().unwrap(); let nk: usize = e.s("nk").parse().unwrap(); let op = e.s("op");
+            let ks: Vec<[u64; 4]> = (0..nk).map(|i| fr_repr(&e.s(&format!("k{}", i))).0).collect();
+            let kr: Vec<&[u64; 4]> = ks.iter().collect();
+            macro_rules! msm { ($get:ident, $outp:ident, $Aff:ident) => {{
+                let ps: Vec<$Aff> = (0..np).map(|i| e.$get(&format!("p{}", i)).into_affine()).collect();
+                std::panic::set_hook(Box::new(|_| {}));
+                let r = std::panic::catch_unwind(|| match op.as_str() {
+                    "default" => $Aff::sum_of_products(&ps, &kr),
+                    "precomp" => { let mut pre = vec![$Aff::zero(); 256 * ps.len()]; for (i, p) in ps.iter().enumerate() { p.precomp_256(&mut pre[256 * i..256 * (i + 1)]); }
+                                   $Aff::sum_of_products_precomp_256(&ps, &kr, &pre) }
+                    w => $Aff::sum_of_products_pippinger(&ps, &kr, w.parse().unwrap()),
+                });
+                match r { Ok(p) => { $outp(&p, &mut out); } Err(_) => { tag = "panic".into(); } }
+            }}; }
+            if label == "msm_g1" { msm!(g1, out_g1, G1Affine) } else { msm!(g2, out_g2, G2Affine) }
         }
         // ---- encoders: bytes of a point given by a Jacobian triple
         "encode" => {
